@@ -8,16 +8,29 @@ THEOREMS = [
     "C14_reorg_before_reconf", "C14_conf_exact_partial_reorg_refuted",
     "C14_conf_zero_client_details_cleared", "C14_spend_zero_client_details_cleared",
     "C14_conf_stale_rescan_ignored", "C14_spend_stale_rescan_ignored",
+    # multi-request model (shared height indexes): request independence + lifted theorems
+    "C14_multi_conf_independent", "C14_multi_spend_independent",
+    "C14_multi_conf_reach", "C14_multi_spend_reach",
+    "C14_multi_conf_hint_safe", "C14_multi_conf_exact", "C14_multi_conf_exact_emit",
+    "C14_multi_reorg_before_reconf",
+    "C14_multi_spend_hint_safe", "C14_multi_spend_exact", "C14_multi_reorg_before_respend",
+    "C14_multi_shared_bucket_reorg",
 ]
 MODULE = "LV.Notifier.Props"
 TARGETS = ["theories/Notifier/Props.vo", "theories/Notifier/Exec.vo",
-           "theories/Notifier/Examples.vo", "theories/Notifier/GenBridge.vo"]
+           "theories/Notifier/Examples.vo", "theories/Notifier/GenBridge.vo",
+           "theories/Notifier/MExec.vo"]
 WARM = [{"pkg": "chainntnfs", "files": ["chainntnfs/verif_txnotifier_test.go"]}]
 IMPORTS = ("From Coq Require Import List NArith.\nImport ListNotations.\n"
            "From LV Require Import Notifier.Model Notifier.Exec.\n")
 
-NTX, NOP = 3, 2
-SPENDS = [0, 0, 1]          # tx i spends outpoint SPENDS[i]
+SPENDS = [0, 0, 1, 2]       # tx i spends outpoint SPENDS[i]; a case uses the first ntx txs /
+                            # nop outpoints (3 / 2 single-history kinds, 4 / 3 multi-request kinds)
+
+
+def dims(case):
+    return len(case["ch0"]), len(case["sh0"])
+
 BADBID = 999999
 
 
@@ -138,6 +151,122 @@ def project_spend(case, j):
 
 
 # --------------------------------------------------------------------------
+# a whole multi-request history -> one Coq term per side (MExec.v)
+
+MIMPORTS = ("From Coq Require Import List NArith.\nImport ListNotations.\n"
+            "From LV Require Import Notifier.Model Notifier.MModel Notifier.MExec.\n")
+MULTI_KINDS = ("multi", "mcoll")
+
+
+def m_conf_events(ev, owner):
+    out = []
+    for cid_s in sorted(ev, key=int):
+        cid = int(cid_s)
+        side, x = owner.get(cid, ("?", 0))
+        if side != "c":
+            continue
+        r = ev[cid_s]
+        def t(e, x=x, cid=cid):
+            return "(%s, (%s, %s))" % (cN(x), cN(cid), e)
+        for u in r.get("u", []):
+            out.append(t("EUpd %s %s" % (cN(u[0]), cN(u[1]))))
+        for c in r.get("c", []):
+            out.append(t("EConf %s %s" % (cN(c[0]), cN(c[1] if c[1] >= 0 else BADBID))))
+        for d in r.get("n", []):
+            out.append(t("ENeg %s" % cN(d if d >= 0 else BADBID)))
+        for _ in range(r.get("d", 0)):
+            out.append(t("EDone"))
+    return clist(out)
+
+
+def m_spend_events(ev, owner):
+    out = []
+    for cid_s in sorted(ev, key=int):
+        cid = int(cid_s)
+        side, x = owner.get(cid, ("?", 0))
+        if side != "s":
+            continue
+        r = ev[cid_s]
+        def t(e, x=x, cid=cid):
+            return "(%s, (%s, %s))" % (cN(x), cN(cid), e)
+        for sp in r.get("s", []):
+            out.append(t("ESpend %s %s" % (cN(sp[0]), cN(sp[1] if sp[1] >= 0 else BADBID))))
+        for _ in range(r.get("r", 0)):
+            out.append(t("EReorg"))
+        for _ in range(r.get("d", 0)):
+            out.append(t("ESDone"))
+    return clist(out)
+
+
+def project_multi(case, side):
+    """-> (coq term, [global op index per step]): the WHOLE history of one side (all conf
+    requests / all spend requests) for the multi-request model.  A call addressed to the other
+    side is skipped unless a client of this side received something during it (then it is kept as
+    a model no-op carrying those events, which the model will not reproduce)."""
+    conf = side == "conf"
+    owner = {}
+    steps, idx = [], []
+    ntx, nop = dims(case)
+    for k, o in enumerate(case["ops"]):
+        op, ret, ev = o["op"], o["ret"], o.get("ev") or {}
+        kind = op[0]
+        okret = ret == "ok" or isinstance(ret, list)
+        if kind == "reg" and okret:
+            owner[op[2]] = ("c", op[1])
+        elif kind == "sreg" and okret:
+            owner[op[2]] = ("s", op[1])
+        t = None
+        if conf:
+            if kind == "reg":
+                t = "MCReg %s %s %s %s" % (cN(op[1]), cN(op[2]), cN(op[3]), cN(op[4]))
+            elif kind == "upd":
+                t = "MCUpd %s %s" % (cN(op[1]), copt(op[2], c_pair))
+            elif kind == "cancel":
+                t = "MCCancel %s %s" % (cN(op[1]), cN(op[2]))
+            elif kind == "conn":
+                t = "MCConnect %s %s %s" % (cN(max(op[1], 0)), cN(op[2]),
+                                            clist([cN(x) for x in op[3]]))
+            elif kind == "notify":
+                t = "MCNotify"
+            elif kind == "disc":
+                t = "MCDisconnect %s" % cN(max(op[1], 0))
+            evs = m_conf_events(ev, owner)
+            res = c_res(ret)
+            if t is None:
+                if evs == clist([]):
+                    continue
+                t, res = "MCCancel 999999 999999", "ROk None"
+            hn = clist([c_optN(x) for x in o["ch"]])
+        else:
+            if kind == "sreg":
+                t = "MSReg %s %s %s" % (cN(op[1]), cN(op[2]), cN(op[3]))
+            elif kind == "supd":
+                t = "MSUpd %s %s" % (cN(op[1]), copt(op[2], c_pair))
+            elif kind == "scancel":
+                t = "MSCancel %s %s" % (cN(op[1]), cN(op[2]))
+            elif kind == "conn":
+                t = "MSConnect %s %s" % (cN(max(op[1], 0)),
+                                         clist(["(%s, %s)" % (cN(SPENDS[x]), cN(x)) for x in op[3]]))
+            elif kind == "notify":
+                t = "MSNotify"
+            elif kind == "disc":
+                t = "MSDisconnect %s" % cN(max(op[1], 0))
+            evs = m_spend_events(ev, owner)
+            res = c_res(ret)
+            if t is None:
+                if evs == clist([]):
+                    continue
+                t, res = "MSCancel 999999 999999", "ROk None"
+            hn = clist([c_optN(x) for x in o["sh"]])
+        steps.append("(%s, %s, %s, %s)" % (t, res, evs, hn))
+        idx.append(k)
+    h0 = clist([c_optN(x) for x in (case["ch0"] if conf else case["sh0"])])
+    term = "%s %s %s %s %s" % ("TMConf" if conf else "TMSpend", cN(case["start"]),
+                               cN(case["limit"]), h0, clist(steps))
+    return term, idx
+
+
+# --------------------------------------------------------------------------
 # property predicate on the implementation's own trace (no model involved)
 
 
@@ -181,6 +310,7 @@ def predicate(case, stats=None, inherit=None, out=None):
     the OUTPUT of the parent run, so neither they nor the client hints excuse anything; the
     per-request taints are inherited from the parent (inherit = (conf taints, spend taints))."""
     restart = case.get("kind") == "restart"
+    NTX, NOP = dims(case)
     fails = []
     chain = [(b[0], list(b[1])) for b in case["pre"]]     # chain[h-1] = (bid, txs)
     limit = case["limit"]
@@ -449,6 +579,118 @@ def predicate(case, stats=None, inherit=None, out=None):
     return fails
 
 
+def collision_stats(case):
+    """Model-free measurement of how far a history exercises the SHARED height indexes of
+    TxNotifier (confsByInitialHeight / ntfnsByConfirmHeight / spendsByHeight buckets are shared by
+    all requests with the same inclusion / due / spend height).  Counts per case:
+      due_collisions            distinct (due height, set of >= 2 conf requests) with un-notified live
+                                clients waiting in the same ntfnsByConfirmHeight bucket
+      inclusion_collisions      blocks that confirm >= 2 watched txs (same confsByInitialHeight bucket)
+      spend_collisions          blocks that spend >= 2 watched outpoints (same spendsByHeight bucket)
+      split_due_reorgs          DisconnectTip calls that remove the block of SOME but not all requests
+                                of a shared due bucket (the survivors must still be notified)
+      split_due_reached         ... and the chain later reaches that due height with a survivor still
+                                in place
+      cancel_in_shared_due      CancelConf of a client waiting in a bucket shared with another request
+      rescan_into_shared        historical-rescan details accepted at an inclusion height at which
+                                another request is already tracked, or putting a client into a due
+                                bucket already used by another request"""
+    st = dict.fromkeys(["due_collisions", "inclusion_collisions", "spend_collisions",
+                        "split_due_reorgs", "split_due_reached", "cancel_in_shared_due",
+                        "rescan_into_shared"], 0)
+    chain = [(b[0], list(b[1])) for b in case["pre"]]
+    clients = {}          # cid -> dict(tx, n, live, told)
+    sclients = {}         # cid -> dict(op, live)
+    seen_due = set()
+    watch = []            # (due height, survivor tx, its position) of split buckets
+
+    def pos(i):
+        for h, (bid, txs) in enumerate(chain, 1):
+            if i in txs:
+                return (h, bid)
+        return None
+
+    def buckets():
+        cur = len(chain)
+        b = {}
+        for cid, c in clients.items():
+            if not c["live"] or c["told"]:
+                continue
+            p = pos(c["tx"])
+            if p and p[0] + c["n"] - 1 > cur:
+                b.setdefault(p[0] + c["n"] - 1, set()).add(c["tx"])
+        return b
+
+    for o in case["ops"]:
+        op, ret, ev = o["op"], o["ret"], o.get("ev") or {}
+        ok = ret == "ok" or isinstance(ret, list)
+        kind = op[0]
+        if kind == "reg" and ok:
+            clients[op[2]] = {"tx": op[1], "n": op[3], "live": True, "told": False}
+        elif kind == "sreg" and ok:
+            sclients[op[2]] = {"op": op[1], "live": True}
+        elif kind == "cancel":
+            c = clients.get(op[2])
+            if c and c["live"] and not c["told"]:
+                p = pos(c["tx"])
+                if p and len(buckets().get(p[0] + c["n"] - 1, ())) >= 2:
+                    st["cancel_in_shared_due"] += 1
+            if c:
+                c["live"] = False
+        elif kind == "scancel":
+            if op[2] in sclients:
+                sclients[op[2]]["live"] = False
+        elif kind == "upd" and ok and op[2] is not None:
+            p = pos(op[1])
+            if p == (op[2][0], op[2][1]):
+                others = {c["tx"] for c in clients.values() if c["live"] and c["tx"] != op[1]}
+                b = buckets()
+                if any(pos(x) and pos(x)[0] == p[0] for x in others) or any(
+                        len(v) >= 2 and op[1] in v for v in b.values()):
+                    st["rescan_into_shared"] += 1
+        elif kind == "conn" and ok:
+            wtx = {c["tx"] for c in clients.values() if c["live"]}
+            wop = {c["op"] for c in sclients.values() if c["live"]}
+            if len([i for i in op[3] if i in wtx]) >= 2:
+                st["inclusion_collisions"] += 1
+            if len({SPENDS[i] for i in op[3] if SPENDS[i] in wop}) >= 2:
+                st["spend_collisions"] += 1
+            chain.append((op[2], list(op[3])))
+        elif kind == "disc" and ok:
+            gone = set(chain[-1][1])
+            for due, reqs in buckets().items():
+                if len(reqs) >= 2 and reqs & gone and reqs - gone:
+                    st["split_due_reorgs"] += 1
+                    for x in reqs - gone:
+                        watch.append((due, x, pos(x)))
+            chain.pop()
+        for cid_s, rec in ev.items():
+            c = clients.get(int(cid_s))
+            if c is None:
+                continue
+            if rec.get("n"):
+                c["told"] = False
+            if rec.get("c"):
+                c["told"] = True
+            if rec.get("d"):
+                c["live"] = False
+        for due, reqs in buckets().items():
+            if len(reqs) >= 2:
+                seen_due.add((due, frozenset(reqs)))
+        if kind == "notify":
+            keep = []
+            for due, x, p in watch:
+                if pos(x) != p:
+                    continue
+                if len(chain) >= due:
+                    st["split_due_reached"] += 1
+                else:
+                    keep.append((due, x, p))
+            watch = keep
+    st["due_collisions"] = len(seen_due)
+    return st
+
+
 def partial_reorg_witness(case):
     """Replay of C14_conf_exact_partial_reorg_refuted on the implementation trace: returns the
     op index after which some client holds an un-negated Confirmed(h, b) while the tx at (h, b)
@@ -483,9 +725,15 @@ def partial_reorg_witness(case):
 
 def run(ctx):
     pr = ctx.proof_stage(MODULE, THEOREMS, TARGETS, extra_trusted=[
-        "per-request projection: the model tracks ONE conf request and ONE spend request; "
-        "independence of requests inside TxNotifier is exercised by the correspondence run "
-        "(3 txs / 2 outpoints in flight per case), not proved",
+        "request independence is PROVED for the multi-request model (MModel.v: map request -> "
+        "per-request state + the shared height indexes confsByInitialHeight / "
+        "ntfnsByConfirmHeight / spendsByHeight with single-entry insert/delete, bucket iteration "
+        "and whole-bucket deletion): C14_multi_conf_independent / C14_multi_spend_independent; the "
+        "per-request theorems are lifted to every request of a multi-request run (C14_multi_*). "
+        "That the REAL TxNotifier behaves like the multi-request model is established by "
+        "correspondence on multi-request histories with forced bucket collisions (MExec.v), not "
+        "proved; within a global call the model runs the per-request body request by request "
+        "(Go iterates the maps in random order; only the per-client order is observable)",
         "theorem hypotheses (environment): client height hints not above the actual "
         "confirmation/spend height, historical-rescan answers truthful about the active chain "
         "at delivery whenever the notifier still lacks the details (outdated answers are "
@@ -532,11 +780,25 @@ def run(ctx):
                               signature="txnotifier %s" % sig)
     # correspondence
     terms, back = [], []
+    mterms, mback = [], []
     kind_of = {c["ci"]: c["kind"] for c in rows}
+
+    def base_kind(c):
+        return kind_of.get(c["ci"] - 2000000) if c["kind"] == "restart" else c["kind"]
+
     for ri, c in enumerate(rows):
+        if base_kind(c) in MULTI_KINDS:
+            # multi-request histories: the whole history against the multi-request model (shared
+            # height indexes); by MProps.C14_multi_*_independent this subsumes the per-request runs
+            for side in ("conf", "spend"):
+                t, idx = project_multi(c, side)
+                mterms.append(t)
+                mback.append((ri, side, "all", idx))
+            if not ctx.thorough:
+                continue
         # enumerated histories (and their restart observation) only touch T0 / outpoint 0
-        enum = c["kind"] == "enum" or (c["kind"] == "restart" and
-                                       kind_of.get(c["ci"] - 2000000) == "enum")
+        enum = base_kind(c) == "enum"
+        NTX, NOP = dims(c)
         for i in range(1 if enum else NTX):
             t, idx = project_conf(c, i)
             terms.append(t)
@@ -547,19 +809,29 @@ def run(ctx):
             back.append((ri, "spend", j, idx))
     ok, bad, logs = coq_mismatches(ctx.uid(), IMPORTS, terms,
                                    shard=max(40, len(terms) // NCPU + 1))
-    if not ok:
+    mok, mbad, mlogs = coq_mismatches(ctx.uid() + "m", MIMPORTS, mterms, mism="mmismatches",
+                                      shard=max(20, len(mterms) // NCPU + 1))
+    if not ok or not mok:
         ctx.violation("correspondence_mismatch", "Notifier.Exec (model evaluation failed)",
-                      {"logs": logs}, signature="model-eval", failing_input=False)
-    for ti, opsidx in bad[:3]:
-        ri, side, x, idx = back[ti]
+                      {"logs": logs + mlogs}, signature="model-eval", failing_input=False)
+    shown = set()
+    for (ti, opsidx), bk, what in ([(b, back, "Notifier.Exec.check_case") for b in bad[:3]] +
+                                   [(b, mback, "Notifier.MExec.mcheck_case") for b in mbad]):
+        ri, side, x, idx = bk[ti]
         c = rows[ri]
+        sig = "txnotifier mismatch %s%s" % ("multi-request " if bk is mback else "", side)
+        if bk is mback:
+            if (sig, c["kind"]) in shown:
+                continue
+            shown.add((sig, c["kind"]))
         g = [idx[s] for s in opsidx if s < len(idx)]
-        ctx.violation("correspondence_mismatch", "Notifier.Exec.check_case",
+        ctx.violation("correspondence_mismatch", what,
                       {"request": [side, x], "first_disagreeing_op_index": g[:1],
                        "disagreeing_ops": [c["ops"][s] for s in g[:3]],
                        "case": {**c, "ops": c["ops"][:(g[0] + 1) if g else None]}},
-                      signature="txnotifier mismatch %s" % side,
+                      signature=sig,
                       failing_input=bool(pred(c)))
+    bad = bad + mbad
     if not pr["ok"] and not ctx.violations:
         ctx.violation("proof_broken", ", ".join(pr["broken"]) or "Notifier build",
                       {"log": pr["log"][-4000:]}, signature="proof", failing_input=False)
@@ -591,14 +863,42 @@ def run(ctx):
             for rec in (o.get("ev") or {}).values():
                 for ch in rec:
                     evk[ch] = evk.get(ch, 0) + 1
+    coll, coll_cases = {}, {}
+    for c in rows:
+        cs = collision_stats(c)
+        d = coll.setdefault(c["kind"], {})
+        for k, v in cs.items():
+            d[k] = d.get(k, 0) + v
+            if v:
+                coll_cases[k] = coll_cases.get(k, 0) + 1
+    clients_per_req = {}
+    for c in rows:
+        if c["kind"] not in MULTI_KINDS:
+            continue
+        per = {}
+        for o in c["ops"]:
+            if o["op"][0] in ("reg", "sreg") and (o["ret"] == "ok" or isinstance(o["ret"], list)):
+                per[(o["op"][0], o["op"][1])] = per.get((o["op"][0], o["op"][1]), 0) + 1
+        for v in per.values():
+            clients_per_req[min(v, 5)] = clients_per_req.get(min(v, 5), 0) + 1
     ctx.cov.update({
-        "evaluations": len(terms),
+        "shared_index_collisions_by_kind": coll,
+        "cases_with_collision": coll_cases,
+        "multi_request_clients_per_request_hist(5=5+)": clients_per_req,
+        "evaluations": len(terms) + len(mterms),
+        "evaluations_per_request_model": len(terms),
+        "evaluations_multi_request_model": len(mterms),
         "distinct_nontrivial": distinct_count([c for c in rows if len(c["ops"]) > 5],
                                               lambda c: [o["op"] for o in c["ops"]]),
         "rule": "one harness case = one chain history over 3 txs (T0/T1 conflicting spends of "
-                "outpoint 0, T2 spends outpoint 1) driven through the real TxNotifier + bbolt "
+                "outpoint 0, T2 spends outpoint 1; multi-request kinds 'multi' (seeded) and 'mcoll' "
+                "(enumerated collision family): 4 txs / 3 outpoints, several clients per request, "
+                "numConfs chosen so that due heights of different requests coincide) driven through "
+                "the real TxNotifier + bbolt "
                 "HeightHintCache; evaluations = per-request projections checked against the "
-                "model (5 per case); non-trivial = more than 5 ops, distinct by full op list; "
+                "per-request model (5 per case) + for multi-request kinds the WHOLE history checked "
+                "against the multi-request model with the shared height indexes (2 per case: conf "
+                "side, spend side); non-trivial = more than 5 ops, distinct by full op list; "
                 "every history is followed by a 'restart' case: fresh TxNotifier on the same hint "
                 "cache at the final tip, every request re-registered with hint = cached hint, "
                 "rescan served truthfully (client must be notified iff confirmed/spent)",
@@ -620,7 +920,10 @@ def run(ctx):
         "(C14_conf_exact_partial_reorg_refuted: no NegativeConf on a partial reorg, pinned by "
         "lnd's TestTxNotifierReorgPartialConfirmation) and holds at emission time only "
         "(C14_conf_exact_emit); see notes/C14.md",
-        "requests are independent inside TxNotifier (per-request model)",
+        "the multi-request model (MModel.v) is tied to the real TxNotifier by correspondence on "
+        "histories with up to 4 conf / 3 spend requests and colliding index buckets; for calls of "
+        "single-history kinds the per-request projections are compared (justified for the model by "
+        "C14_multi_*_independent)",
         "harness drains every client channel after every call, so the notifier's own "
         "channel-draining code paths (stale Confirmed/Updates/Reorg removal) are not observed",
         "script-based (ZeroHash / ZeroOutPoint) requests, includeBlock and TearDown are not modelled",
